@@ -263,7 +263,18 @@ impl<F: Flavour> World<F> {
                     2 => keys(F::g_orphans(g)),
                     3 => keys(F::g_to_vec(g)),
                     4 => Obs::Num(F::g_to_dot(g).len()),
-                    5 => F::g_scc(g).map(|c| Obs::Num(c.len())).unwrap_or(Obs::Unsupported),
+                    5 => F::g_scc(g)
+                        .map(|c| {
+                            // the partition itself, as sorted lists of keys (listed twice is visible)
+                            let mut p: Vec<Vec<usize>> = c.iter().map(|comp| {
+                                let mut k: Vec<usize> = comp.iter().map(|n| F::key(n)).collect();
+                                k.sort();
+                                k
+                            }).collect();
+                            p.sort();
+                            Obs::Text(format!("{p:?}"))
+                        })
+                        .unwrap_or(Obs::Unsupported),
                     6 => match F::g_ser(g, crate::flavour::Wire::Json) {
                         Ok(b) => match parse_doc_edges(&b) {
                             Some(e) => Obs::Edges(e),
